@@ -190,6 +190,8 @@ func RunChecker(l *Loaded, ex *Exec, ch sched.Chooser) (*Outcome, *ExecStats, er
 		for _, d := range act.diags {
 			pos := l.Fset.Position(d.Pos)
 			out.Diags[act.pkg.Path] = append(out.Diags[act.pkg.Path], Diag{act.a.Name, strings.TrimPrefix(pos.Filename, simRoot), pos.Line, pos.Column, d.Message})
+			out.Actions = append(out.Actions, act.String())
+			out.RawDiags = append(out.RawDiags, Diag{act.a.Name, strings.TrimPrefix(pos.Filename, simRoot), pos.Line, pos.Column, d.Message})
 		}
 	}
 	out.Normalise()
@@ -333,7 +335,28 @@ func execAction(l *Loaded, act *action, gobTransport bool, st *ExecStats) {
 		if !ok {
 			return nil, fmt.Errorf("open %s: no such file or directory", name)
 		}
-		return append([]byte(nil), b...), nil
+		b = append([]byte(nil), b...)
+		if f, ok := l.ReadFaults[name]; ok {
+			switch {
+			case f == "eio":
+				l.logRead(act.String(), name, nil, true)
+				return nil, fmt.Errorf("read %s: input/output error", name)
+			case f == "empty":
+				b = nil
+			case strings.HasPrefix(f, "short:"):
+				n := 0
+				fmt.Sscanf(f, "short:%d", &n)
+				if n < len(b) {
+					b = b[:n]
+				}
+			case strings.HasPrefix(f, "edited:"):
+				b = []byte(f[len("edited:"):])
+			}
+		}
+		if l.ReadFaults != nil {
+			l.logRead(act.String(), name, b, false)
+		}
+		return b, nil
 	}
 	act.pass = pass
 	result, err := act.a.Run(pass)
@@ -349,6 +372,11 @@ func execAction(l *Loaded, act *action, gobTransport bool, st *ExecStats) {
 	}
 	pass.ExportPackageFact = nil
 	simrt.Yield(siteActionEnd)
+}
+
+//go:norace
+func (l *Loaded) logRead(action, file string, data []byte, failed bool) {
+	l.ReadLog = append(l.ReadLog, ReadEvent{action, file, append([]byte(nil), data...), failed})
 }
 
 // normFact makes nil and empty slices compare equal (gob does not keep the difference).
